@@ -69,7 +69,7 @@ def normalize_axes(
     if shape is not None:
         if min(axes) < 0:
             axes = tuple([len(shape) + a if a < 0 else a for a in axes])
-        if max(axes) >= len(shape):
+        if max(axes) >= len(shape) or min(axes) < 0:
             raise ValueError(
                 f"Invalid axes {axes} specified; each axis must be less than `len(shape)`={len(shape)}."
             )
